@@ -4,8 +4,11 @@
    histories/traces and the tag=value scanner are shared).
 
    A step of the trace is JUDGED when its operation feeds exactly one well-framed ResendRequest to a
-   session that is in state `continuous` and still reading (the step reports the return value of
-   Session::process), with the expected MsgSeqNum and the session's CompIDs, and
+   session that is ESTABLISHED in whatever sub-state other than "a replay is running" (continuous,
+   test_request_sent, resend_request_sent, ...: an unanswered valid request is a failure in all of them) and
+   still reading (the step reports the return value of Session::process), with the session's CompIDs and
+   either the expected MsgSeqNum or, from state continuous, a MsgSeqNum above it (then the session's own
+   ResendRequest for its gap precedes the answer and takes the number next_send), and
    always_seqnum_assign is off (with that option fix8 renumbers what it resends by design: outside the
    property, see the suite's ASSUMPTIONS).  Known before the step (from the previous snapshots): the
    store (the concatenation of the STORE deltas), next_send = N, the persister kind.
@@ -196,7 +199,15 @@ Definition outs (evs : list event) : list item :=
   flat_map (fun e => match e with EOut raw => [parse_out raw] | EOutRaw _ => [IBad] | _ => [] end) evs.
 
 (* the request of an IN operation, when the step is to be judged: (MsgSeqNum, Begin, End) *)
-Definition request_of (o : ost) (oper : op) : option (N * N * N) :=
+(* the established states (States::SessionStates: continuous, logon_received, logoff_sent, logoff_received,
+   test_request_sent, sequence_reset_sent, sequence_reset_received, resend_request_sent); a replay that is
+   already running (resend_request_received = 13) is the one state in which a request may go unanswered *)
+Definition answering_state (st : N) : bool :=
+  existsb (N.eqb st) [1; 6; 7; 8; 9; 10; 11; 12].
+
+(* (MsgSeqNum, Begin, End, ahead): ahead = the request's own number is above the expected one (only judged
+   from state continuous: the session first asks for ITS gap with a ResendRequest of its own, then answers) *)
+Definition request_of (o : ost) (oper : op) : option (N * N * N * bool) :=
   match oper with
   | OIn [chunk] =>
     match frames chunk with
@@ -205,11 +216,12 @@ Definition request_of (o : ost) (oper : op) : option (N * N * N) :=
       match tok_get (tagb T_MsgType) t, num_tok T_MsgSeqNum t, num_tok T_BeginSeqNo t, num_tok T_EndSeqNo t,
             tok_get (tagb T_SenderCompID) t, tok_get (tagb T_TargetCompID) t with
       | Some ty, Some s, Some b, Some e, Some sci, Some tci =>
-        if beq ty [50] && (o_state o =? st_continuous) && (s =? o_recv o) &&
+        if beq ty [50] &&
+           (((s =? o_recv o) && answering_state (o_state o)) || ((o_recv o <? s) && (o_state o =? st_continuous))) &&
            negb (pr_asa (sp_par (o_sp o))) &&
            beq sci (sp_tgt (o_sp o)) && beq tci (sp_snd (o_sp o)) &&
            match tok_get (tagb T_PossDupFlag) t with None => true | Some _ => false end
-        then Some (s, b, e) else None
+        then Some (s, b, e, o_recv o <? s) else None
       | _, _, _, _, _, _ => None
       end
     | _ => None
@@ -246,11 +258,25 @@ Definition c18_step (o : ost) (oper : op) (s : step) : option ost :=
     | None => mkOst sp' (o_store o) (o_state o) (o_send o) (o_recv o) cont
     end in
   match (if has_ret (st_events s) then request_of o oper else None) with
-  | Some (reqseq, b, e) =>
+  | Some (reqseq, b, e, ahead) =>
     match st_snap s with
     | Some sn =>
       let st := match sp_pk (o_sp o) with PNone => [] | _ => o_store o end in
-      if answer_ok st reqseq (o_send o) b e items (sn_send sn) then Some (next (Some (sn_send sn))) else None
+      let ok :=
+        if ahead then
+          (* first our own ResendRequest, a new message numbered next_send; then the answer *)
+          match items with
+          | IMsg t :: items' =>
+            match tok_get (tagb T_MsgType) t, tok_get (tagb T_MsgSeqNum) t with
+            | Some ty, Some v =>
+              beq ty [50] && beq v (dec (o_send o)) && negb (flag_set (tok_get (tagb T_PossDupFlag) t)) &&
+              answer_ok st reqseq (o_send o + 1) b e items' (sn_send sn)
+            | _, _ => false
+            end
+          | _ => false
+          end
+        else answer_ok st reqseq (o_send o) b e items (sn_send sn) in
+      if ok then Some (next (Some (sn_send sn))) else None
     | None => None
     end
   | None =>
